@@ -71,7 +71,7 @@ impl Property for C01 {
         ]
     }
     fn plan(&self, tier: Tier) -> Plan {
-        Plan { workers: tier.pick(4, 16), cases_per_worker: tier.pick(25_000, 400_000), max_shrink_iters: 4000 }
+        Plan { workers: tier.pick(4, 16), cases_per_worker: tier.pick(250_000, 2_000_000), max_shrink_iters: 4000 }
     }
     fn selftest(&self) -> Result<serde_json::Value, String> {
         crate::selftest::model_vs_recorded()
